@@ -310,6 +310,32 @@ func TestVF_HandlesNFS(t *testing.T) {
 						issue(proc, p, id)
 					}
 				}
+			case x < 73 && created > 0: // a name is removed and made again as another kind of object
+				name := "n" + string(rune('0'+created%10)) + string(rune('a'+created/10%26))
+				env.Do(NFSPROC3_REMOVE, vfArgsDirOp(dirH, name), vfRoot)
+				env.Do(NFSPROC3_RMDIR, vfArgsDirOp(dirH, name), vfRoot)
+				var rep *vfNFSReply
+				proc := "MKDIR"
+				if r.Intn(2) == 0 {
+					rep = env.Do(NFSPROC3_MKDIR, vfArgsMkdir(dirH, name, vfSattr{Mode: u32p(0755)}), vfRoot)
+				} else {
+					proc = "CREATE"
+					rep = env.Do(NFSPROC3_CREATE, vfArgsCreate(dirH, name, 0, vfSattr{Mode: u32p(0644)}, [8]byte{}), vfRoot)
+				}
+				if rep.OK() {
+					id, ok := vfFH(vfGet(rep.Res.Val, "object"))
+					p := ""
+					for _, nd := range fs.Snapshot(0) {
+						if len(nd.P) > 0 && nd.P[len(nd.P)-1] == name {
+							p = "/" + path.Join(nd.P...)
+						}
+					}
+					if ok && p != "" {
+						add(p)
+						noteReuse(id)
+						issue(proc, p, id)
+					}
+				}
 			case x < 74: // MNT again
 				id := env.Mount(t, vfRoot)
 				noteReuse(id)
